@@ -3,7 +3,9 @@ C07 (file emitter, end to end) — and the end-to-end lane of C10.
 
 The whole pipeline `emit_file::set_with_writer(..).verif_spawn_with(fakefs, clock, ids)` is driven
 by seeded scenarios: rounds of emits (main thread, optionally a second emitter thread running
-concurrently) followed by `blocking_flush`. Filesystem faults (errors, short writes, a panic
+concurrently) followed by `blocking_flush`; in a third of the rounds the filesystem's `write` is
+gated so that the flush is requested while the worker is parked in the middle of the batch (queue
+empty, batch in flight) and the gate is opened afterwards. Filesystem faults (errors, short writes, a panic
 inside the filesystem call) are planned at seeded op indices.
 
 Oracle at the instant `blocking_flush` returns true (C07): every record whose `emit` call had
@@ -41,7 +43,7 @@ struct Scn {
     reuse: bool,
     max_size: usize,
     second_emitter: bool,
-    rounds: Vec<(u64, u64)>, // (events, clock advance ms)
+    rounds: Vec<(u64, u64, bool)>, // (events, clock advance ms, flush requested while the worker is parked inside write)
     faults: Vec<Fault>,
 }
 
@@ -52,7 +54,7 @@ fn gen(seed: u64, idx: u64) -> Scn {
     let rounds = (0..n_rounds)
         .map(|_| {
             let hi = if g.chance(1, 4) { 300 } else { 30 };
-            (1 + g.below(hi), *g.pick(&[0u64, 0, 3, 900, 61_000]))
+            (1 + g.below(hi), *g.pick(&[0u64, 0, 3, 900, 61_000]), g.chance(1, 3))
         })
         .collect();
     let mut faults = Vec::new();
@@ -87,8 +89,41 @@ impl Scn {
     fn to_json(&self) -> Json {
         json!({"scenario": self.idx, "separator": self.sep, "writer_appends_separator": self.append_sep, "format_fails_every": self.fail_mod,
                "reuse_files": self.reuse, "max_file_size_bytes": self.max_size, "second_emitter_thread": self.second_emitter,
-               "rounds_events_clockms": self.rounds, "faults": self.faults.iter().map(|f| json!([f.at, f.kind.name()])).collect::<Vec<_>>()})
+               "rounds_events_clockms_gated": self.rounds, "faults": self.faults.iter().map(|f| json!([f.at, f.kind.name()])).collect::<Vec<_>>()})
     }
+}
+
+struct Snap {
+    requested: u64,
+    ok: bool,
+    synced: std::collections::HashSet<u64>,
+    anywhere: std::collections::HashSet<u64>,
+    bad: Vec<(String, usize, usize, String)>,
+    metrics: std::collections::BTreeMap<String, u64>,
+}
+
+/// Request a flush and capture the filesystem at (or slightly after) the instant it returned.
+fn flush_and_snapshot(files: &emit_file::FileSet, fs: &FakeFs, sep: u8, worker_may_be_writing: bool) -> Snap {
+    let requested = stamp();
+    let ok = files.blocking_flush(Duration::from_secs(60));
+    let st = fs.lock();
+    let synced = synced_vids(&st, sep);
+    let bad = bad_pieces(&st, sep, worker_may_be_writing);
+    let mut anywhere = std::collections::HashSet::new();
+    for node in st.files.values() {
+        let c = node.content();
+        let mut b = 0;
+        for (i, ch) in c.iter().enumerate() {
+            if *ch == sep {
+                if let Some(v) = parse_body(&c[b..i]) {
+                    anywhere.insert(v);
+                }
+                b = i + 1;
+            }
+        }
+    }
+    drop(st);
+    Snap { requested, ok, synced, anywhere, bad, metrics: sample_metrics(files) }
 }
 
 fn run(r: &mut Report, seed: u64, idx: u64) {
@@ -120,6 +155,7 @@ fn run(r: &mut Report, seed: u64, idx: u64) {
     let stop = AtomicBool::new(false);
     let mut next_vid = 0u64;
     let mut flushes_true = 0u64;
+    let mut gated_flushes = 0u64;
     let mut checked = 0u64;
     let mut excused = 0u64;
     std::thread::scope(|scope| {
@@ -142,8 +178,12 @@ fn run(r: &mut Report, seed: u64, idx: u64) {
                 }
             });
         }
-        for (n, adv) in &s.rounds {
+        for (n, adv, gated) in &s.rounds {
             clock.advance(adv * 1_000_000);
+            if *gated {
+                // the worker will park inside `write` with this round's batch in flight
+                fs.close_gate();
+            }
             for _ in 0..*n {
                 let len = ((next_vid * 37) % 211) as usize;
                 emit_record(&files, next_vid, len);
@@ -151,34 +191,31 @@ fn run(r: &mut Report, seed: u64, idx: u64) {
                 emitted.lock().unwrap().push((next_vid, st));
                 next_vid += 1;
             }
-            let requested = stamp();
-            let ok = files.blocking_flush(Duration::from_secs(60));
-            if !ok {
+            let snap = if *gated {
+                // shape the scenario (no verdict depends on these waits): let the worker take the batch and
+                // park, request the flush from another thread, then release the worker
+                for _ in 0..5_000 {
+                    if fs.gate_waiting() > 0 {
+                        break;
+                    }
+                    std::thread::sleep(Duration::from_micros(100));
+                }
+                gated_flushes += (fs.gate_waiting() > 0) as u64;
+                let (files, fs2) = (&files, &fs);
+                let (sep, second) = (s.sep[0], s.second_emitter);
+                let h = scope.spawn(move || flush_and_snapshot(files, fs2, sep, second));
+                std::thread::sleep(Duration::from_millis(2));
+                fs.open_gate();
+                h.join().expect("flusher")
+            } else {
+                flush_and_snapshot(&files, &fs, s.sep[0], s.second_emitter)
+            };
+            if !snap.ok {
                 r.inconclusive(format!("scenario {}: blocking_flush timed out after 60 s", idx));
                 break;
             }
             flushes_true += 1;
-            // state at (or slightly after) the instant the flush returned
-            let (synced, bad, in_unsynced) = {
-                let st = fs.lock();
-                let synced = synced_vids(&st, s.sep[0]);
-                let bad = bad_pieces(&st, s.sep[0], s.second_emitter);
-                let mut all = std::collections::HashSet::new();
-                for node in st.files.values() {
-                    let c = node.content();
-                    let mut b = 0;
-                    for (i, ch) in c.iter().enumerate() {
-                        if *ch == s.sep[0] {
-                            if let Some(v) = parse_body(&c[b..i]) {
-                                all.insert(v);
-                            }
-                            b = i + 1;
-                        }
-                    }
-                }
-                (synced, bad, all)
-            };
-            let m = sample_metrics(&files);
+            let Snap { requested, synced, anywhere: in_unsynced, bad, metrics: m, .. } = snap;
             let permanent = metric(&m, "file_queue_batch_failed").saturating_sub(metric(&m, "file_queue_batch_retry"))
                 + metric(&m, "file_queue_batch_panicked")
                 + metric(&m, "file_queue_full_truncated");
@@ -223,6 +260,7 @@ fn run(r: &mut Report, seed: u64, idx: u64) {
     let ops = fs.op_count() as u64;
     let hits = fs.lock().hits.len() as u64;
     r.observe("flushes-returned-true", flushes_true);
+    r.observe("flushes-requested-while-worker-parked-mid-batch", gated_flushes);
     r.observe("records-required-synced-at-flush", checked);
     r.observe("records-excused-by-permanent-failure-metrics", excused);
     r.observe("filesystem-ops", ops);
